@@ -9,7 +9,6 @@ macro_rules! ensure { ($c:expr, $($t:tt)*) => { if !$c { return Err(QueryError::
 pub mod engine { pub mod data_types {
     pub use crate::tys::*;
     pub type of64 = ordered_float::OrderedFloat<f64>;
-    #[derive(Clone, Copy, Debug, PartialEq, Eq, Hash)] pub struct MergeOp;
     #[derive(Clone, Copy, Debug, PartialEq, Eq, Hash)] pub struct Premerge;
     #[derive(Clone, Copy, Debug, PartialEq, Eq, Hash)] pub struct ValRows<'a>(pub std::marker::PhantomData<&'a ()>);
 } }
@@ -26,73 +25,146 @@ use std::marker::PhantomData;
 // node's output buffer(s).  The stand-in records the calls.
 #[derive(Clone, Copy, PartialEq, Debug)]
 pub enum Node {
-    Partition { l: usize, r: usize, limit: usize, out: usize },
-    Subpartition { prev: usize, l: usize, r: usize, out: usize },
+    ConstantVec { index: usize, out: usize },
+    Partition { l: usize, r: usize, limit: usize, desc: bool, out: usize },
+    Subpartition { prev: usize, l: usize, r: usize, desc: bool, out: usize },
+    MergeDedup { l: usize, r: usize, ops: usize, merged: usize },
     MergeDedupPartitioned { partitioning: usize, l: usize, r: usize, ops: usize, merged: usize },
     MergeDrop { ops: usize, l: usize, r: usize, out: usize },
-    Cast { input: usize, out: usize },
+    MergeAggregate { ops: usize, l: usize, r: usize, aggregator: Aggregator, out: usize },
+    Merge { l: usize, r: usize, limit: usize, desc: bool, ops: usize, merged: usize },
+    MergePartitioned { partitioning: usize, l: usize, r: usize, limit: usize, desc: bool, ops: usize, merged: usize },
+    MergeKeep { ops: usize, l: usize, r: usize, out: usize },
+    Cast { input: usize, to: EncodingType, out: usize },
 }
-pub const LOG: usize = 12;
+pub const LOG: usize = 16;
 pub struct QueryPlanner { pub log: [Option<Node>; LOG], pub len: usize, pub next: usize }
+fn buf<T>(i: usize, name: &'static str) -> BufferRef<T> { BufferRef { i, name, t: PhantomData } }
 impl QueryPlanner {
     fn fresh(&mut self) -> usize { self.next += 1; self.next }
     fn rec(&mut self, n: Node) { if self.len < LOG { self.log[self.len] = Some(n); } self.len += 1; }
-    pub fn partition(&mut self, l: TypedBufferRef, r: TypedBufferRef, limit: usize, _desc: bool) -> BufferRef<Premerge> {
-        let out = self.fresh(); self.rec(Node::Partition { l: l.buffer.i, r: r.buffer.i, limit, out }); BufferRef { i: out, name: "partitioning", t: PhantomData } }
-    pub fn subpartition(&mut self, p: BufferRef<Premerge>, l: TypedBufferRef, r: TypedBufferRef, _desc: bool) -> BufferRef<Premerge> {
-        let out = self.fresh(); self.rec(Node::Subpartition { prev: p.i, l: l.buffer.i, r: r.buffer.i, out }); BufferRef { i: out, name: "subpartitioning", t: PhantomData } }
+    pub fn constant_vec(&mut self, index: usize, t: EncodingType) -> TypedBufferRef {
+        let out = self.fresh(); self.rec(Node::ConstantVec { index, out }); TypedBufferRef::new(buf(out, "constant_vec"), t) }
+    pub fn partition(&mut self, l: TypedBufferRef, r: TypedBufferRef, limit: usize, desc: bool) -> BufferRef<Premerge> {
+        let out = self.fresh(); self.rec(Node::Partition { l: l.buffer.i, r: r.buffer.i, limit, desc, out }); buf(out, "partitioning") }
+    pub fn subpartition(&mut self, p: BufferRef<Premerge>, l: TypedBufferRef, r: TypedBufferRef, desc: bool) -> BufferRef<Premerge> {
+        let out = self.fresh(); self.rec(Node::Subpartition { prev: p.i, l: l.buffer.i, r: r.buffer.i, desc, out }); buf(out, "subpartitioning") }
+    pub fn merge_deduplicate(&mut self, l: TypedBufferRef, r: TypedBufferRef) -> (BufferRef<MergeOp>, TypedBufferRef) {
+        let ops = self.fresh(); let merged = self.fresh();
+        self.rec(Node::MergeDedup { l: l.buffer.i, r: r.buffer.i, ops, merged });
+        (buf(ops, "ops"), TypedBufferRef::new(buf(merged, "merged"), l.tag)) }
     pub fn merge_deduplicate_partitioned(&mut self, p: BufferRef<Premerge>, l: TypedBufferRef, r: TypedBufferRef) -> (BufferRef<MergeOp>, TypedBufferRef) {
         let ops = self.fresh(); let merged = self.fresh();
         self.rec(Node::MergeDedupPartitioned { partitioning: p.i, l: l.buffer.i, r: r.buffer.i, ops, merged });
-        (BufferRef { i: ops, name: "ops", t: PhantomData }, TypedBufferRef::new(BufferRef { i: merged, name: "merged", t: PhantomData }, l.tag)) }
+        (buf(ops, "ops"), TypedBufferRef::new(buf(merged, "merged"), l.tag)) }
     pub fn merge_drop(&mut self, ops: BufferRef<MergeOp>, l: TypedBufferRef, r: TypedBufferRef) -> TypedBufferRef {
-        let out = self.fresh(); self.rec(Node::MergeDrop { ops: ops.i, l: l.buffer.i, r: r.buffer.i, out }); TypedBufferRef::new(BufferRef { i: out, name: "merged", t: PhantomData }, l.tag) }
+        let out = self.fresh(); self.rec(Node::MergeDrop { ops: ops.i, l: l.buffer.i, r: r.buffer.i, out }); TypedBufferRef::new(buf(out, "merged"), l.tag) }
+    pub fn merge_aggregate(&mut self, ops: BufferRef<MergeOp>, l: TypedBufferRef, r: TypedBufferRef, aggregator: Aggregator) -> TypedBufferRef {
+        let out = self.fresh(); self.rec(Node::MergeAggregate { ops: ops.i, l: l.buffer.i, r: r.buffer.i, aggregator, out }); TypedBufferRef::new(buf(out, "aggregated"), l.tag) }
+    pub fn merge(&mut self, l: TypedBufferRef, r: TypedBufferRef, limit: usize, desc: bool) -> (BufferRef<MergeOp>, TypedBufferRef) {
+        let ops = self.fresh(); let merged = self.fresh();
+        self.rec(Node::Merge { l: l.buffer.i, r: r.buffer.i, limit, desc, ops, merged });
+        (buf(ops, "merge_ops"), TypedBufferRef::new(buf(merged, "merged"), l.tag)) }
+    pub fn merge_partitioned(&mut self, p: BufferRef<Premerge>, l: TypedBufferRef, r: TypedBufferRef, limit: usize, desc: bool) -> (BufferRef<MergeOp>, TypedBufferRef) {
+        let ops = self.fresh(); let merged = self.fresh();
+        self.rec(Node::MergePartitioned { partitioning: p.i, l: l.buffer.i, r: r.buffer.i, limit, desc, ops, merged });
+        (buf(ops, "merge_ops"), TypedBufferRef::new(buf(merged, "merged"), l.tag)) }
+    pub fn merge_keep(&mut self, ops: BufferRef<MergeOp>, l: TypedBufferRef, r: TypedBufferRef) -> TypedBufferRef {
+        let out = self.fresh(); self.rec(Node::MergeKeep { ops: ops.i, l: l.buffer.i, r: r.buffer.i, out }); TypedBufferRef::new(buf(out, "merged"), l.tag) }
     pub fn cast(&mut self, input: TypedBufferRef, t: EncodingType) -> TypedBufferRef {
-        let out = self.fresh(); self.rec(Node::Cast { input: input.buffer.i, out }); TypedBufferRef::new(BufferRef { i: out, name: "casted", t: PhantomData }, t) }
+        let out = self.fresh(); self.rec(Node::Cast { input: input.buffer.i, to: t, out }); TypedBufferRef::new(buf(out, "casted"), t) }
 }
 include!("combine.rs");
 
 #[cfg(kani)]
 mod proofs {
     use super::*;
-    const LP: [usize; 5] = [1, 3, 0, 4, 2]; // where the n group-by columns sit among the left / right result columns
+    const LP: [usize; 5] = [1, 3, 0, 4, 2]; // where the n group-by / sort columns sit among the left / right result columns
     const RP: [usize; 5] = [2, 0, 4, 1, 3];
-    fn col(i: usize) -> TypedBufferRef { TypedBufferRef::new(BufferRef { i, name: "c", t: PhantomData }, EncodingType::I64) }
+    fn col(i: usize) -> TypedBufferRef { TypedBufferRef::new(buf(i, "c"), EncodingType::I64) }
+    fn fcol(i: usize) -> TypedBufferRef { TypedBufferRef::new(buf(i, "c"), EncodingType::F64) }
+    fn planner() -> QueryPlanner { QueryPlanner { log: [None; LOG], len: 0, next: 100 } }
+    // aggregation query with n group-by columns and three aggregates: (int, int), (int, float), (float, int) partial results
     fn run(n: usize) {
-        let left = vec![col(10), col(11), col(12), col(13), col(14)];
-        let right = vec![col(20), col(21), col(22), col(23), col(24)];
+        let left = vec![col(10), col(11), col(12), col(13), col(14), col(15), col(16), fcol(17)];
+        let right = vec![col(20), col(21), col(22), col(23), col(24), col(25), col(26), fcol(27)];
         let lprojection: Vec<usize> = LP[..n].to_vec();
         let rprojection: Vec<usize> = RP[..n].to_vec();
+        let aggs1 = vec![(6, Aggregator::SumI64), (5, Aggregator::MaxF64), (7, Aggregator::MinF64)];
+        let aggs2 = vec![(5, Aggregator::SumI64), (7, Aggregator::MaxF64), (6, Aggregator::MinF64)];
         let limit: usize = kani::any();
-        let (cols, ops, qp) = merge_group_by_plan(QueryPlanner { log: [None; LOG], len: 0, next: 100 }, &left, &right, &lprojection, &rprojection, limit);
+        let mut data: Vec<Box<Vec<MergeOp>>> = Vec::new();
+        let (cols, ops, aggregates, qp) = match merge_aggregation_plan(planner(), &mut data, &left, &right, &lprojection, &rprojection, &aggs1, &aggs2, limit) {
+            Ok(x) => x,
+            Err(_) => { assert!(false, "[plan-built] merging two well-formed partial results is not an error"); return; }
+        };
         let log = |k: usize| qp.log[k].unwrap();
         let key = |k: usize| (10 + LP[k], 20 + RP[k]); // buffers of the k-th grouping key on the left / right
-        assert!(qp.len == 2 * n - 1, "[node-count] one partition/subpartition/merge node per key and one replay node per key but the last, nothing else (no casts for equal types)");
-        // the partitioning chain: key 0, then every middle key in order, each refining the previous one
-        let mut prev = 0;
-        for k in 0..n - 1 {
-            let (l, r) = key(k);
-            match log(k) {
-                Node::Partition { l: a, r: b, limit: lim, out } if k == 0 => { assert!(a == l && b == r && lim == limit, "[partition-first-key] rows are first partitioned by the first grouping key"); prev = out; }
-                Node::Subpartition { prev: p, l: a, r: b, out } if k > 0 => { assert!(p == prev && a == l && b == r, "[refine-by-every-middle-key] every middle grouping key refines the partitioning, in order"); prev = out; }
-                _ => assert!(false, "[refine-by-every-middle-key] every middle grouping key refines the partitioning, in order"),
+        let key_nodes = if n == 0 { 1 } else { 2 * n - 1 };
+        assert!(qp.len == key_nodes + 5, "[node-count] one partition/subpartition/merge node per key, one replay node per key but the last, one node per aggregate and one cast per mixed int/float aggregate, nothing else");
+        let mops;
+        if n == 0 {
+            // no grouping key: each side has exactly one group, and the two are combined
+            match log(0) {
+                Node::ConstantVec { index, out } => { assert!(index == 0 && data.len() == 1 && *data[0] == vec![MergeOp::TakeLeft, MergeOp::MergeRight], "[no-key-schedule] without a grouping key the one group of the right result is merged into the one group of the left result"); mops = out; }
+                _ => { assert!(false, "[no-key-schedule] without a grouping key the one group of the right result is merged into the one group of the left result"); mops = 0; }
+            }
+            assert!(cols.is_empty(), "[no-key-columns] no key columns are produced");
+        } else if n == 1 {
+            let (l, r) = key(0);
+            match log(0) {
+                Node::MergeDedup { l: a, r: b, ops: o, merged } => { assert!(a == l && b == r && cols.len() == 1 && cols[0].i == merged, "[merge-on-single-key] a single grouping key is merged by one deduplicating merge of its left / right buffers"); mops = o; }
+                _ => { assert!(false, "[merge-on-single-key] a single grouping key is merged by one deduplicating merge of its left / right buffers"); mops = 0; }
+            }
+        } else {
+            // the partitioning chain: key 0, then every middle key in order, each refining the previous one
+            let mut prev = 0;
+            for k in 0..n - 1 {
+                let (l, r) = key(k);
+                match log(k) {
+                    Node::Partition { l: a, r: b, limit: lim, out, .. } if k == 0 => { assert!(a == l && b == r && lim == limit, "[partition-first-key] rows are first partitioned by the first grouping key"); prev = out; }
+                    Node::Subpartition { prev: p, l: a, r: b, out, .. } if k > 0 => { assert!(p == prev && a == l && b == r, "[refine-by-every-middle-key] every middle grouping key refines the partitioning, in order"); prev = out; }
+                    _ => assert!(false, "[refine-by-every-middle-key] every middle grouping key refines the partitioning, in order"),
+                }
+            }
+            let (l, r) = key(n - 1);
+            let merged;
+            match log(n - 1) {
+                Node::MergeDedupPartitioned { partitioning, l: a, r: b, ops: o, merged: m } => { assert!(partitioning == prev && a == l && b == r, "[merge-on-last-key] the last grouping key is merged inside the finest partitioning"); mops = o; merged = m; }
+                _ => { assert!(false, "[merge-on-last-key] the last grouping key is merged inside the finest partitioning"); mops = 0; merged = 0; }
+            }
+            assert!(cols.len() == n && cols[n - 1].i == merged, "[last-key-column] the merged last key is the last output key column");
+            for k in 0..n - 1 {
+                let (l, r) = key(k);
+                match log(n + k) {
+                    Node::MergeDrop { ops: o, l: a, r: b, out } => assert!(o == mops && a == l && b == r && cols[k].i == out, "[replay-on-other-keys] every other key column is merged by replaying the same schedule on its own left / right buffers"),
+                    _ => assert!(false, "[replay-on-other-keys] every other key column is merged by replaying the same schedule on its own left / right buffers"),
+                }
             }
         }
-        let (l, r) = key(n - 1);
-        let (mops, merged) = match log(n - 1) {
-            Node::MergeDedupPartitioned { partitioning, l: a, r: b, ops: o, merged: m } => { assert!(partitioning == prev && a == l && b == r, "[merge-on-last-key] the last grouping key is merged inside the finest partitioning"); (o, m) }
-            _ => { assert!(false, "[merge-on-last-key] the last grouping key is merged inside the finest partitioning"); (0, 0) }
-        };
         assert!(ops.i == mops, "[ops-returned] the merge schedule handed to the aggregates is the one computed on the keys");
-        assert!(cols.len() == n && cols[n - 1].i == merged, "[last-key-column] the merged last key is the last output key column");
-        for k in 0..n - 1 {
-            let (l, r) = key(k);
-            match log(n + k) {
-                Node::MergeDrop { ops: o, l: a, r: b, out } => assert!(o == mops && a == l && b == r && cols[k].i == out, "[replay-on-other-keys] every other key column is merged by replaying the same schedule on its own left / right buffers"),
-                _ => assert!(false, "[replay-on-other-keys] every other key column is merged by replaying the same schedule on its own left / right buffers"),
-            }
+        // the aggregates: each is combined under the key schedule from its own left / right partial column
+        assert!(aggregates.len() == 3, "[one-output-per-aggregate] one combined column per aggregate");
+        let k0 = key_nodes;
+        match log(k0) {
+            Node::MergeAggregate { ops: o, l, r, aggregator, out } => assert!(o == mops && l == 16 && r == 25 && aggregator == Aggregator::SumI64 && aggregates[0].0.i == out && aggregates[0].1 == Aggregator::SumI64, "[aggregate-merged-under-key-schedule] an aggregate is combined from its own left and right partial columns under the schedule computed on the keys, with its own aggregator"),
+            _ => assert!(false, "[aggregate-merged-under-key-schedule] an aggregate is combined from its own left and right partial columns under the schedule computed on the keys, with its own aggregator"),
+        }
+        match (log(k0 + 1), log(k0 + 2)) {
+            (Node::Cast { input, to, out: c }, Node::MergeAggregate { ops: o, l, r, aggregator, out }) => assert!(input == 15 && to == EncodingType::F64 && o == mops && l == c && r == 27 && aggregator == Aggregator::MaxF64 && aggregates[1].0.i == out, "[int-side-cast-to-float] when one partial result is integer and the other float, the integer side is converted and the float side is used as it is"),
+            _ => assert!(false, "[int-side-cast-to-float] when one partial result is integer and the other float, the integer side is converted and the float side is used as it is"),
+        }
+        match (log(k0 + 3), log(k0 + 4)) {
+            (Node::Cast { input, to, out: c }, Node::MergeAggregate { ops: o, l, r, aggregator, out }) => assert!(input == 26 && to == EncodingType::F64 && o == mops && l == 17 && r == c && aggregator == Aggregator::MinF64 && aggregates[2].0.i == out, "[int-side-cast-to-float] when one partial result is integer and the other float, the integer side is converted and the float side is used as it is"),
+            _ => assert!(false, "[int-side-cast-to-float] when one partial result is integer and the other float, the integer side is converted and the float side is used as it is"),
         }
     }
+    #[kani::proof]
+    #[kani::unwind(7)]
+    fn no_group_by_column() { run(0); }
+    #[kani::proof]
+    #[kani::unwind(7)]
+    fn one_group_by_column() { run(1); }
     #[kani::proof]
     #[kani::unwind(7)]
     fn two_group_by_columns() { run(2); }
@@ -105,6 +177,76 @@ mod proofs {
     #[kani::proof]
     #[kani::unwind(8)]
     fn five_group_by_columns() { run(5); }
+
+    // ORDER BY query with n sort columns (any directions) and three output columns: the final sort column, a column that is
+    // the final sort column on the left side only, and an unrelated column
+    fn run_sorted(n: usize) {
+        let left = vec![col(10), col(11), col(12), col(13), col(14)];
+        let right = vec![col(20), col(21), col(22), col(23), col(24)];
+        let desc: [bool; 3] = kani::any();
+        let rdesc: [bool; 3] = kani::any();
+        let mut ob1 = Vec::new();
+        let mut ob2 = Vec::new();
+        for k in 0..n { ob1.push((LP[k], desc[k])); ob2.push((RP[k], rdesc[k])); }
+        let projection1 = vec![LP[n - 1], LP[n - 1], 4];
+        let projection2 = vec![RP[n - 1], 1, 3];
+        let limit: usize = kani::any();
+        let (projection, order_by, merge_ops, qp) = merge_sorted_plan(planner(), &left, &right, &ob1, &ob2, &projection1, &projection2, limit);
+        let log = |k: usize| qp.log[k].unwrap();
+        let key = |k: usize| (10 + LP[k], 20 + RP[k]);
+        assert!(qp.len == n + 2 + (n - 1), "[node-count] one node per sort column, one replay node per output column that is not the final sort column, one replay node per sort column but the last");
+        let (mops, merged);
+        if n == 1 {
+            let (l, r) = key(0);
+            match log(0) {
+                Node::Merge { l: a, r: b, limit: lim, desc: d, ops: o, merged: m } => { assert!(a == l && b == r && lim == limit && d == desc[0], "[merge-on-single-sort-column] one sort column: the two sorted results are merged on it, in its direction, up to the limit"); mops = o; merged = m; }
+                _ => { assert!(false, "[merge-on-single-sort-column] one sort column: the two sorted results are merged on it, in its direction, up to the limit"); mops = 0; merged = 0; }
+            }
+        } else {
+            let mut prev = 0;
+            for k in 0..n - 1 {
+                let (l, r) = key(k);
+                match log(k) {
+                    Node::Partition { l: a, r: b, limit: lim, desc: d, out } if k == 0 => { assert!(a == l && b == r && lim == limit && d == desc[0], "[partition-first-sort-column] rows are first partitioned by the first sort column, in its direction"); prev = out; }
+                    Node::Subpartition { prev: p, l: a, r: b, desc: d, out } if k > 0 => { assert!(p == prev && a == l && b == r && d == desc[k], "[refine-by-every-middle-sort-column] every middle sort column refines the partitioning, in order and in its own direction"); prev = out; }
+                    _ => assert!(false, "[refine-by-every-middle-sort-column] every middle sort column refines the partitioning, in order and in its own direction"),
+                }
+            }
+            let (l, r) = key(n - 1);
+            match log(n - 1) {
+                Node::MergePartitioned { partitioning, l: a, r: b, limit: lim, desc: d, ops: o, merged: m } => { assert!(partitioning == prev && a == l && b == r && lim == limit && d == desc[n - 1], "[merge-on-last-sort-column] the last sort column is merged inside the finest partitioning, in its direction, up to the limit"); mops = o; merged = m; }
+                _ => { assert!(false, "[merge-on-last-sort-column] the last sort column is merged inside the finest partitioning, in its direction, up to the limit"); mops = 0; merged = 0; }
+            }
+        }
+        assert!(merge_ops.i == mops, "[ops-returned] the schedule replayed on the other columns is the one computed on the sort columns");
+        assert!(projection.len() == 3 && projection[0].i == merged, "[final-sort-column-output] an output column that is the final sort column on both sides is the merged sort column");
+        match log(n) {
+            Node::MergeKeep { ops: o, l, r, out } => assert!(o == mops && l == 10 + LP[n - 1] && r == 21 && projection[1].i == out, "[replay-on-output-columns] every other output column is merged by replaying the schedule on its own left / right buffers"),
+            _ => assert!(false, "[replay-on-output-columns] every other output column is merged by replaying the schedule on its own left / right buffers"),
+        }
+        match log(n + 1) {
+            Node::MergeKeep { ops: o, l, r, out } => assert!(o == mops && l == 14 && r == 23 && projection[2].i == out, "[replay-on-output-columns] every other output column is merged by replaying the schedule on its own left / right buffers"),
+            _ => assert!(false, "[replay-on-output-columns] every other output column is merged by replaying the schedule on its own left / right buffers"),
+        }
+        assert!(order_by.len() == n, "[sort-columns-kept] the merged result carries one sort column per ORDER BY expression");
+        for k in 0..n - 1 {
+            let (l, r) = key(k);
+            match log(n + 2 + k) {
+                Node::MergeKeep { ops: o, l: a, r: b, out } => assert!(o == mops && a == l && b == r && order_by[k].0.i == out && order_by[k].1 == desc[k], "[replay-on-sort-columns] every sort column but the last is carried along by replaying the schedule, and keeps its direction"),
+                _ => assert!(false, "[replay-on-sort-columns] every sort column but the last is carried along by replaying the schedule, and keeps its direction"),
+            }
+        }
+        assert!(order_by[n - 1].0.i == merged && order_by[n - 1].1 == desc[n - 1], "[last-sort-column-kept] the last sort column of the merged result is the merged column, in its direction");
+    }
+    #[kani::proof]
+    #[kani::unwind(7)]
+    fn one_sort_column() { run_sorted(1); }
+    #[kani::proof]
+    #[kani::unwind(7)]
+    fn two_sort_columns() { run_sorted(2); }
+    #[kani::proof]
+    #[kani::unwind(7)]
+    fn three_sort_columns() { run_sorted(3); }
     fn any_tag() -> EncodingType {
         let k: u8 = kani::any();
         kani::assume(k < 30);
